@@ -123,7 +123,7 @@ theorem live_egressLoop (fuel : Nat) (k : Kernel) (o : List Fd) (out : List Pkt)
     · apply ih
       apply live_drainOutbound
       have hs := live_segmentAll k o h
-      exact ⟨hs.tinv, hs.cinv, hs.lown, hs.live, hs.fix⟩
+      exact ⟨hs.tinv, hs.cinv, hs.rinv, hs.lown, hs.live, hs.fix⟩
 
 theorem live_egress (k : Kernel) (o : List Fd) (out : List Pkt) (h : Live k o) : Live (k.egress out).1 o := by
   unfold egress
